@@ -107,7 +107,11 @@ func (call *CallStm) checkMappings(global *Ast, pipeline *Pipeline) error {
 	if err == nil && call.Mapping != nil {
 		switch call.Mapping.(type) {
 		case *placeholderMapSource, *placeholderArrayMapSource, *placeholderMapMapSource:
-			panic(call.Mapping)
+			// This happens when the call is mapped over the output of another
+			// map call for which the source could not be resolved.
+			return global.err(call,
+				"MapCallError: cannot determine the source which call %s is mapped over.",
+				call.Id)
 		}
 	}
 	// Check all sources are consistent.  checkBindingMap will have merged them.
